@@ -102,7 +102,7 @@ func (sc *Scenario) RunW(ch Chooser, watchdog time.Duration) *Sim {
 		if k >= len(opts) {
 			k = len(opts) - 1
 		}
-		if !s.Apply(opts[k]) {
+		if !s.Apply(opts[k]) || s.Panicked {
 			return s
 		}
 		switch {
